@@ -1,6 +1,7 @@
 (* C36: the theorems about the cursor model (assembled from Cursor_lists / Cursor_inv / Cursor_place). *)
 From Coq Require Import ZArith List Bool Lia ZifyBool Arith.
-From PCB Require Import lib.Result lib.PyInt model.Cursor proofs.Cursor_lists proofs.Cursor_inv proofs.Cursor_place.
+From PCB Require Import lib.Result lib.PyInt model.Cursor proofs.Cursor_lists proofs.Cursor_inv proofs.Cursor_place
+  proofs.Cursor_flags.
 Import ListNotations.
 Open Scope Z_scope.
 
@@ -374,4 +375,86 @@ Lemma forallb_not_ctrl str : forallb (fun c => negb (is_ctrl c)) str = true ->
 Proof.
   intros H. apply Forall_forall. intros c Hc. rewrite forallb_forall in H. specialize (H c Hc).
   destruct (is_ctrl c); [discriminate|reflexivity].
+Qed.
+
+(* ---- plain text placement from any state inside the window (stale continuation flags, pending overflow) *)
+Theorem write_chars_layout_gen s0 str : INV s0 -> bra s0 = false -> top s0 <= row s0 <= bot s0 ->
+  (ovf s0 = true -> col s0 = width s0) ->
+  let W := width s0 in
+  let res := layoutw W (flags0 s0) (page0 s0) (row s0) (if ovf s0 then W + 1 else col s0) str in
+  let g := fst res in let vr := fst (snd res) in let vc := snd (snd res) in
+  let K := Z.max 0 (vr - bot s0) in
+  let s := write_chars false s0 str in
+  same_env s0 s /\
+  row s = vr - K /\ top s0 <= row s <= bot s0 /\
+  ((1 <= vc <= W /\ col s = vc /\ ovf s = false) \/ (vc = W + 1 /\ col s = W /\ ovf s = true)) /\
+  forall R C, 1 <= R <= height s0 -> 1 <= C <= W ->
+    get_cell (cells s) R C =
+      if (top s0 <=? R) && (R <=? bot s0) then g (R + K) C else get_cell (cells s0) R C.
+Proof.
+  intros HI Hb Hr Hov. cbv zeta.
+  assert (G0 : geom_ok s0) by apply HI.
+  assert (Hfl : forall v, v > bot s0 -> flags0 s0 v = false)
+    by (intros v Hv; unfold flags0; replace (v <=? bot s0) with false by lia; reflexivity).
+  pose proof (rel2_init s0 HI Hb Hr Hov) as R0.
+  pose proof (rel2_steps s0 (flags0 s0) G0 Hfl str s0 (page0 s0) (row s0) _ R0) as [E1 E2 E3 [E4 E5] E6 E7 E8 E9].
+  split; [exact E1|]. split; [exact E4|]. split; [exact E5|]. split; [exact E6|]. exact E7.
+Qed.
+
+(* closed form.  L0 is the linear position of the next character (a pending overflow counts as column W+1); the
+   characters sit where they sit on a flag-free screen; K, the number of scrolls, is one more than there exactly
+   when the last character landed in the last column of a row whose continuation flag was set *)
+Theorem write_chars_placement_gen s0 str : INV s0 -> bra s0 = false -> top s0 <= row s0 <= bot s0 ->
+  (ovf s0 = true -> col s0 = width s0) ->
+  let W := width s0 in
+  let n := Z.of_nat (length str) in
+  let L0 := lin W (row s0) (if ovf s0 then W + 1 else col s0) in
+  let q := L0 + n - 1 in
+  let vl := q / W in
+  let K := if n =? 0 then 0
+           else Z.max 0 ((if (q mod W =? W - 1) && flags0 s0 vl then vl + 1 else vl) - bot s0) in
+  let s := write_chars false s0 str in
+  same_env s0 s /\
+  forall R C, 1 <= R <= height s0 -> 1 <= C <= W ->
+    get_cell (cells s) R C =
+      if (top s0 <=? R) && (R <=? bot s0) then
+        let p := lin W (R + K) C - L0 in
+        if (0 <=? p) && (p <? n) then nth (Z.to_nat p) str 32 else page0 s0 (R + K) C
+      else get_cell (cells s0) R C.
+Proof.
+  intros HI Hb Hr Hov. cbv zeta.
+  destruct (write_chars_layout_gen s0 str HI Hb Hr Hov) as (E1 & E2 & E3 & E4 & E5).
+  pose proof HI as [[(G1&G2&G3&G4&G5&G6) _] [Hr0 Hc0]].
+  set (vc0 := if ovf s0 then width s0 + 1 else col s0) in *.
+  assert (Hvc0 : 1 <= vc0 <= width s0 + 1) by (unfold vc0; destruct (ovf s0); lia).
+  destruct (layout_closed (width s0) str G2 (page0 s0) (row s0) vc0 Hvc0) as (L1 & L2 & L3 & L4).
+  split; [exact E1|]. intros R C HR HC. rewrite (E5 R C HR HC).
+  destruct ((top s0 <=? R) && (R <=? bot s0)) eqn:EW; [|reflexivity].
+  rewrite layoutw_grid by exact G2.
+  set (vr := fst (snd (layoutw (width s0) (flags0 s0) (page0 s0) (row s0) vc0 str))) in *.
+  assert (HK : Z.max 0 (vr - bot s0) =
+    (if Z.of_nat (length str) =? 0 then 0
+     else Z.max 0 ((if ((lin (width s0) (row s0) vc0 + Z.of_nat (length str) - 1) mod width s0 =? width s0 - 1)
+                        && flags0 s0 ((lin (width s0) (row s0) vc0 + Z.of_nat (length str) - 1) / width s0)
+                    then (lin (width s0) (row s0) vc0 + Z.of_nat (length str) - 1) / width s0 + 1
+                    else (lin (width s0) (row s0) vc0 + Z.of_nat (length str) - 1) / width s0) - bot s0))).
+  { destruct str as [|ch t].
+    - unfold vr. cbn [layoutw fst snd length]. cbn. lia.
+    - assert (Hne : ch :: t <> []) by congruence. specialize (L3 Hne).
+      replace (Z.of_nat (length (ch :: t)) =? 0) with false by (cbn [length]; lia).
+      unfold vr. rewrite (layoutw_pos (width s0) (flags0 s0) (ch :: t) G2 Hne _ _ _ Hvc0).
+      set (v := fst (snd (layout (width s0) (page0 s0) (row s0) vc0 (ch :: t)))) in *.
+      set (c := snd (snd (layout (width s0) (page0 s0) (row s0) vc0 (ch :: t)))) in *.
+      replace (snd (layout (width s0) (page0 s0) (row s0) vc0 (ch :: t))) with (v, c)
+        by (unfold v, c; destruct (snd (layout (width s0) (page0 s0) (row s0) vc0 (ch :: t))); reflexivity).
+      assert (Hq : lin (width s0) v (c - 1) = lin (width s0) (row s0) vc0 + Z.of_nat (length (ch :: t)) - 1)
+        by (unfold lin in *; lia).
+      assert (Hpos : 0 <= lin (width s0) (row s0) vc0 + Z.of_nat (length (ch :: t)) - 1).
+      { unfold lin. cbn [length]. nia. }
+      destruct (lin_divmod (width s0) v (c - 1) _ ltac:(lia) ltac:(lia) Hpos Hq) as [Hv Hcm].
+      rewrite <- Hv. unfold norm_pos. cbn [fst snd].
+      replace (c =? width s0 + 1) with
+        ((lin (width s0) (row s0) vc0 + Z.of_nat (length (ch :: t)) - 1) mod width s0 =? width s0 - 1) by lia.
+      destruct (_ && flags0 s0 v); reflexivity. }
+  rewrite HK. apply L1. exact HC.
 Qed.
